@@ -721,12 +721,14 @@ class DistributedShampoo(torch.optim.Optimizer):
             state_lists[GRAFTING_PRECONDITIONER_LIST].compress_preconditioner_list(
                 local_grad_selector=state_lists[DISTRIBUTOR].local_grad_selector,
             )
-        if group[BETAS][0] != 0.0:
+        # Keep the masked lists in sync whenever the underlying state exists: the hyperparameters may be zero at
+        # this step (e.g. set by a scheduler) and non-zero again later while the gradient selector stays the same.
+        if FILTERED_GRAD_LIST in state_lists:
             state_lists[MASKED_FILTERED_GRAD_LIST] = compress_list(
                 state_lists[FILTERED_GRAD_LIST],
                 state_lists[DISTRIBUTOR].local_grad_selector,
             )
-        if group[MOMENTUM] != 0.0:
+        if MOMENTUM_LIST in state_lists:
             state_lists[MASKED_MOMENTUM_LIST] = compress_list(
                 state_lists[MOMENTUM_LIST],
                 state_lists[DISTRIBUTOR].local_grad_selector,
